@@ -6,7 +6,7 @@
     the registry, reshape to the written view order.  [query_spec] is a
     comprehension over the map identifier -> component vector ([abs w]). *)
 From Coq Require Import Permutation.
-From Brood Require Import Base World Spec Kinds Tables Sched Query BaseFacts Inv StepInv Refine QueryFacts.
+From Brood Require Import Base World Spec Kinds Tables Sched Query Subset SubsetM BaseFacts Inv StepInv Refine QueryFacts SubsetFacts.
 
 (** For any views (any kinds, any order, with or without the identifier, empty),
     any filter and every reachable world — empty archetypes and zero-sized
@@ -78,4 +78,34 @@ Example C03_example :
       = Some [[QOpt None; QId (0, 0%N); QVal 5%N]; [QOpt (Some 7%N); QId (1, 0%N); QVal 6%N]]
   | None => False
   end.
+Proof. vm_compute. reflexivity. Qed.
+
+
+(** Query-time [Entries] (systems): the row is viewed through the declared entry views first — a
+    non-optional view of an absent component leaves an uninitialised slot — and each requested
+    sub-view is then taken out of the matching slot by the operation the source uses for that pair
+    of kinds (table regenerated from query/view/subset.rs).  For every subset the type system
+    accepts, no uninitialised slot is ever read and the result is what [World::entry(e).query]
+    returns for the same views. *)
+Theorem C03_entries_subviews : forall w e supers subs f, Inv w ->
+  wf_views (w_n w) supers -> wf_views (w_n w) subs -> subset_ok supers subs ->
+  entries_entry_query w e supers subs f = entry_query w e subs f.
+Proof. exact entries_entry_query_eq. Qed.
+Check (C03_entries_subviews : forall w e supers subs f, Inv w ->
+  wf_views (w_n w) supers -> wf_views (w_n w) subs -> subset_ok supers subs ->
+  entries_entry_query w e supers subs f = entry_query w e subs f).
+Print Assumptions C03_entries_subviews.
+
+Theorem C03_entries_row : forall n sh supers subs f id vals,
+  wf_views n supers -> wf_views n subs -> subset_ok supers subs ->
+  length sh = n -> length vals = count_true sh ->
+  filter_eval (query_filter subs f) sh = true ->
+  entries_view sh supers subs (id, vals) = Some (map (spec_item id (row_abs sh vals)) subs).
+Proof. exact entries_view_spec. Qed.
+Print Assumptions C03_entries_row.
+
+Example C03_entries_example :
+  entries_view [true; false; true] [VComp KMut 0; VComp KRef 1; VComp KOptMut 2; VIdent]
+                                   [VComp KOptRef 1; VComp KRef 2; VIdent; VComp KRef 0] ((7, 0%N), [11%N; 13%N])
+  = Some [QOpt None; QVal 13%N; QId (7, 0%N); QVal 11%N].
 Proof. vm_compute. reflexivity. Qed.
